@@ -194,6 +194,7 @@ def gen_files(rng, spec, kind):
         for _ in range(rng.below(4)):
             toks += gen_safe_atom(rng, spec, kind) if rng.chance(2, 3) else gen_atom(rng, spec, kind)
         toks = [t for t in toks if t and not any(c in t for c in b' \t\n\r\x0b\x0c')]
+        toks = [t for t in toks if all(c < 128 for c in t)]    # @-file contents stay ASCII (model domain: read_to_string)
         if i < 2 and rng.chance(1, 4):
             toks.insert(rng.below(len(toks) + 1), b'@' + [b'rsp2', b'rsp3'][i])   # only forward references: no cycles
         if rng.chance(1, 10):
@@ -662,6 +663,9 @@ def _model_predict_fn():
 
 
 def extra(rep, known):
+    if os.environ.get('VERIF_C01_SKIP_E2E') == '1':      # development aid only; the registered commands never set it
+        rep.notes.append('e2e leg skipped (VERIF_C01_SKIP_E2E=1)')
+        return
     import subprocess as _sp
     global subprocess
     subprocess = _sp
